@@ -26,6 +26,11 @@ def main():
             return props.replay(a.prop, a.replay, rep)
         props.CHECKS[a.prop](rep, a.tier, seed)
         return rep.finish()
+    except engine.LibraryRaised as ex:
+        lines = [ln for ln in ex.tail.strip().splitlines() if ln.strip()]
+        rep.fail("library_raised", "driver:" + ex.script, {"driver": ex.script, "arguments": [str(x)[-60:] for x in ex.args_], "traceback (tail)": lines[-8:]},
+                 lines[-1] if lines else "exception", "the call completes (it does on the unchanged tree): the exception originates inside the library")
+        return rep.finish()
     except engine.MachineryError as ex:
         print(f"MACHINERY-FAILURE property={a.prop}: {ex}", file=sys.stderr)
         return 2
